@@ -513,7 +513,8 @@ class Merge(Expr):
                 if col in right_on or col in projection:
                     project_right.append(col)
                 elif f"{col}{right_suffix}" in projection:
-                    project_right.append(col)
+                    if col not in project_right:
+                        project_right.append(col)
                     if col in left.columns and col not in project_left:
                         # Left column must be present
                         # for the suffix to be applied
